@@ -513,7 +513,7 @@ class IMAPClient:
                 # Read until b'\r\n'. Trim off the '\r\n'. If the message is
                 # not of 0 length then append it to our incremental buffer.
                 #
-                msg = await self.reader.readuntil(self.LINE_TERMINATOR)
+                msg = await self.read_line()
                 msg = msg.rstrip()
                 if msg:
                     self.ibuffer.append(msg)
@@ -674,6 +674,37 @@ class IMAPClient:
                 except asyncio.CancelledError:
                     pass
             await self.close()
+
+    ####################################################################
+    #
+    async def read_line(self) -> bytes:
+        """
+        Read up to and including the next line terminator.
+
+        The stream refuses to buffer a line longer than its limit (64k by
+        default, far below MAX_INPUT_SIZE): `readuntil()` raises
+        LimitOverrunError, which ended the connection without a word. Such a
+        line is a command like any other, so collect it piece by piece. Once
+        it is longer than we accept at all we only keep its beginning and its
+        end (what is left is still too long, so the caller refuses it with a
+        BAD, and sees a literal declaration at its end, so that we stay in
+        sync with the client.)
+        """
+        pieces: list[bytes] = []
+        size = 0
+        while True:
+            try:
+                piece = await self.reader.readuntil(self.LINE_TERMINATOR)
+                done = True
+            except asyncio.LimitOverrunError as exc:
+                piece = await self.reader.readexactly(exc.consumed)
+                done = False
+            if size > MAX_INPUT_SIZE and len(pieces) > 2:
+                del pieces[1:-1]
+            pieces.append(piece)
+            size += len(piece)
+            if done:
+                return b"".join(pieces)
 
     ####################################################################
     #
